@@ -1,16 +1,17 @@
 package engines
 
 import (
-	"os"
-	"runtime/debug"
 	"context"
 	"errors"
 	"fmt"
+	"os"
 	"runtime"
+	"runtime/debug"
 	"sort"
 	"strconv"
 	"strings"
 	"sync"
+	"sync/atomic"
 	"time"
 
 	"github.com/bufbuild/protocompile/experimental/incremental"
@@ -27,6 +28,7 @@ import (
 //   run <k>...                      one incremental.Run with these roots
 //   runc <k,k|k,k|...>              concurrent Runs (one goroutine each)
 //   runw <k> <a,b> <c,d>            Run(a,b) is held inside Execute of k until Run(c,d) is parked waiting; then k proceeds
+//   runev <g> <keys> <k=v,..|->     Run(g) held at the start of Execute(g) while EvictWithCleanup(keys, inputs := ...) is entered concurrently
 //   runp <k> <r>...                 Run(k, r...) with Execute of k held until the other queries' leaders are parked in acquire
 //   dump                            task table (deps / callers / state)
 //   permits                         can all p permits be acquired?
@@ -169,6 +171,11 @@ type incrEngine struct {
 	ex   *incremental.Executor
 	w    *incrWorld
 	hung bool
+	// hooks of runGroup used by runev: after the Runs were started / after they all returned
+	postStart func()
+	preAnswer func() string
+	// number of Runs of the current runGroup call that have returned
+	runsReturned atomic.Int32
 }
 
 func init() {
@@ -259,10 +266,10 @@ func (e *incrEngine) keysField() string {
 }
 
 type incrRunOut struct {
-	roots  []int
-	res    []incremental.Result[int64]
-	err    error
-	obs    *incrRunObs
+	roots   []int
+	res     []incremental.Result[int64]
+	err     error
+	obs     *incrRunObs
 	paniced string
 }
 
@@ -328,14 +335,19 @@ func (e *incrEngine) runGroup(groups [][]int, withFlags bool, coarse bool, seque
 	e.w.mu.Unlock()
 	outs := make([]*incrRunOut, len(groups))
 	done := make(chan int, len(groups))
+	e.runsReturned.Store(0)
 	for i := range groups {
 		if sequentialStart != nil {
 			sequentialStart(i)
 		}
 		go func() {
 			outs[i] = e.doRun(groups[i])
+			e.runsReturned.Add(1)
 			done <- i
 		}()
+	}
+	if e.postStart != nil {
+		e.postStart()
 	}
 	timer := time.NewTimer(incrWatchdog)
 	defer timer.Stop()
@@ -378,6 +390,13 @@ func (e *incrEngine) runGroup(groups [][]int, withFlags bool, coarse bool, seque
 			}
 			e.w.mu.Unlock()
 			return "hang runs=" + strings.Join(hs, ",")
+		}
+	}
+	if e.preAnswer != nil {
+		if bad := e.preAnswer(); bad != "" {
+			e.hung = true
+			incrSlowCount++
+			return bad
 		}
 	}
 	if coarse {
@@ -736,6 +755,17 @@ func (e *incrEngine) gateClosedPending() bool {
 	}
 }
 
+// incrParkedEvictions counts the goroutines parked inside Executor.EvictWithCleanup (at its lock).
+func incrParkedEvictions() int {
+	c := 0
+	for _, g := range incrGoroutines() {
+		if strings.Contains(g, "(*Executor).EvictWithCleanup") && incrIsParkedState(incrGoroutineState(g)) {
+			c++
+		}
+	}
+	return c
+}
+
 // incrParkedCount counts the goroutines blocked in the select of (*task).waitUntilDone.
 func incrParkedCount() int { return incrParkedIn("(*task).waitUntilDone") }
 
@@ -902,6 +932,102 @@ func (e *incrEngine) Exec(op string) string {
 				}()
 			}
 		})
+		e.w.mu.Lock()
+		e.w.gateCh = nil
+		e.w.mu.Unlock()
+		return ans
+	case "runev":
+		// runev <g> <evict keys> <k=v,..|->: Run(g) and EvictWithCleanup(keys, cleanup = the input
+		// changes) issued CONCURRENTLY: the Run is held at the start of Execute(g); the eviction
+		// call is entered and has reached the executor's exclusive lock before the Run goes on.
+		if len(w) != 4 {
+			return "bad-op"
+		}
+		g, err := strconv.Atoi(w[1])
+		evk, ok := incrInts(w[2])
+		if err != nil || !ok || g < 0 || e.w.nodes[g] == nil {
+			return "bad-op"
+		}
+		type change struct {
+			k int
+			v int64
+		}
+		var changes []change
+		if w[3] != "-" {
+			for _, kv := range strings.Split(w[3], ",") {
+				a, b, ok := strings.Cut(kv, "=")
+				k, err1 := strconv.Atoi(a)
+				v, err2 := strconv.ParseInt(b, 10, 64)
+				if !ok || err1 != nil || err2 != nil || k < 0 || v < 0 {
+					return "bad-op"
+				}
+				changes = append(changes, change{k, v})
+			}
+		}
+		var keys []any
+		for _, k := range evk {
+			keys = append(keys, k)
+		}
+		e.w.mu.Lock()
+		e.w.gateKey = g
+		e.w.gateCh = make(chan struct{})
+		e.w.gateStarted = make(chan struct{}, 1)
+		gate, started := e.w.gateCh, e.w.gateStarted
+		e.w.mu.Unlock()
+		openGate := func() {
+			e.w.mu.Lock()
+			select {
+			case <-gate:
+			default:
+				close(gate)
+			}
+			e.w.mu.Unlock()
+		}
+		evDone := make(chan struct{})
+		isDone := func() bool {
+			select {
+			case <-evDone:
+				return true
+			default:
+				return false
+			}
+		}
+		e.postStart = func() {
+			// the Run is inside Execute(g) -- or has returned without executing g (g memoized)
+			gotStarted := false
+			incrWaitFor(incrWatchdog/2, func() bool {
+				select {
+				case <-started:
+					gotStarted = true
+				default:
+				}
+				return gotStarted || e.runsReturned.Load() > 0
+			})
+			base := incrParkedEvictions()
+			go func() {
+				defer close(evDone)
+				defer func() { _ = recover() }()
+				e.ex.EvictWithCleanup(keys, func() {
+					e.w.mu.Lock()
+					for _, c := range changes {
+						e.w.env[c.k] = c.v
+					}
+					e.w.mu.Unlock()
+				})
+			}()
+			// the eviction call has been entered and is blocked at the lock (or has returned)
+			incrWaitFor(incrWatchdog/3, func() bool { return isDone() || incrParkedEvictions() > base })
+			openGate()
+		}
+		e.preAnswer = func() string {
+			if !incrWaitFor(incrWatchdog, isDone) {
+				return "hang evict"
+			}
+			return ""
+		}
+		ans := e.runGroup([][]int{{g}}, true, false, nil)
+		e.postStart, e.preAnswer = nil, nil
+		openGate()
 		e.w.mu.Lock()
 		e.w.gateCh = nil
 		e.w.mu.Unlock()
@@ -1110,6 +1236,15 @@ func (e *incrEngine) Gen(r *Rand, tier string) [][]string {
 			"set 0 5", "evict 0", "dump", "run 4 4 1", "runc 4|4,1|2", "evict 7 1", "run 4"},
 		[]string{"new 1", "def 0 e", "def 1 - a0", "def 2 - a1", "def 3 - a2 o0 v1", "run 3", "set 0 1", "run 3", "evict 0", "run 3", "evict 2", "dump", "run 3 0", "evict", "evict 0 0 3", "dump", "run 2", "run 3"},
 	)
+	cases = append(cases,
+		// an eviction issued while a Run is in flight: the Run is about to add a NEW dependent (1) of the
+		// evicted, already memoized key (0)
+		[]string{"new 4", "def 0 e", "def 1 - a0", "run 0", "runev 1 0 0=2", "run 0", "run 1", "dump"},
+		// ... the in-flight Run is about to memoize the evicted key itself
+		[]string{"new 2", "def 0 e", "def 1 - a0", "runev 1 0 0=2", "dump", "run 0", "run 1"},
+		// ... the Run's root is itself evicted; a diamond above the changed input; no input change
+		[]string{"new 3", "def 0 e", "def 1 - a0", "def 2 - a0", "def 3 - a1,2", "run 1", "runev 3 0,3 0=4", "run 3 1 2 0", "dump", "runev 3 2 -", "run 3", "runev 3 1 -", "dump", "run 3"},
+	)
 	// exhaustive: every DAG on n <= 4 (thorough: 5) nodes with edges towards smaller keys,
 	// each under every parallelism 1..4, with a fixed eviction walk
 	maxN := 4
@@ -1140,6 +1275,10 @@ func (e *incrEngine) Gen(r *Rand, tier string) [][]string {
 						c = append(c, "run "+all)
 					}
 				}
+				// a concurrent Run/Evict pair: the top query was evicted, so the in-flight Run re-executes it
+				// and registers it as a new dependent of already memoized keys while the eviction waits
+				k := r.Intn(n)
+				c = append(c, "evict "+top, fmt.Sprintf("runev %s %d %d=%d", top, k, k, 6+r.Intn(3)), "run "+all, "dump")
 				cases = append(cases, c)
 			}
 		}
@@ -1182,6 +1321,23 @@ func (e *incrEngine) Gen(r *Rand, tier string) [][]string {
 					}
 					c = append(c, "evict "+strings.Join(incrIntsToStrs(ev), " "))
 				}
+			case x < 9 && !stale && r.Chance(1, 2):
+				g := r.Intn(n)
+				ev := incrRandRoots(r, n, 2)
+				var ch []string
+				for _, k := range ev {
+					if r.Chance(2, 3) {
+						ch = append(ch, fmt.Sprintf("%d=%d", k, r.Intn(6)))
+					}
+				}
+				chs := "-"
+				if len(ch) > 0 {
+					chs = strings.Join(ch, ",")
+				}
+				if r.Chance(1, 2) {
+					c = append(c, fmt.Sprintf("evict %d", g)) // make sure the Run has something to execute
+				}
+				c = append(c, fmt.Sprintf("runev %d %s %s", g, incrJoin(ev), chs))
 			case x < 9:
 				c = append(c, "evict "+strings.Join(incrIntsToStrs(incrRandRoots(r, n+1, 3)), " "))
 			default:
@@ -1259,7 +1415,13 @@ func incrSeqCase(r *Rand, n int, mask, panics uint64, p int) []string {
 	defs, _ := incrDigraphDefs(r, n, mask, true, panics)
 	c := []string{fmt.Sprintf("new %d", p)}
 	c = append(c, defs...)
-	order := incrShuffle(r, func() []int { a := make([]int, n); for i := range a { a[i] = i }; return a }())
+	order := incrShuffle(r, func() []int {
+		a := make([]int, n)
+		for i := range a {
+			a[i] = i
+		}
+		return a
+	}())
 	for _, k := range order {
 		c = append(c, fmt.Sprintf("run %d", k))
 	}
